@@ -838,7 +838,7 @@ class C05(Prop):
         "open_wf", "refill_wf", "refill_guarantee", "getLine_refines", "fetchLine_refines", "read_refines",
         "getToken_refines", "fetchToken_refines", "lines_partition", "getLine_keeps_anchor", "countline_pagesize_independent",
         "history_spec", "history_mode_independent", "history_no_fault", "reread_under_anchor", "step_simulates", "get_prefix", "readLines_eq_specLines", "get_all_in_memory", "stable_ptr_valid_quiet", "open_quiet",
-        "stable_ptr_valid", "stable_growth_bounded", "stable_ptr_valid_partial", "stable_ptr_valid_fails_at",
+        "stable_ptr_valid", "stable_growth_bounded", "stable_ptr_valid_step", "stable_ptr_valid_history", "stable_anchor_establishes", "stable_ptr_valid_partial", "stable_ptr_valid_fails_at",
         # round 3: the API contract discharged
         "step_total", "history_total", "history_total_no_fault", "history_total_no_set", "error_only_outside_contract", "contract_implies_callerOk", "callerOk_decidable", "spec_bracket", "history_memory_exact", "history_memory_mode_independent",
         "unsafe_set_beyond_window", "fixed_setoffset_beyond_end_in_memory", "fixed_anchor_ahead_of_cursor", "fixed_rewind_before_anchor",
@@ -852,13 +852,17 @@ class C05(Prop):
                   "history_mode_independent; history_no_fault (no out-of-bounds access, only OK/EOF/EOL); lines + terminators partition the input; re-read under an anchor (the very end of the input included); "
                   "readLines_eq_specLines: reading any input line by line on any opener yields exactly specLines src; get_prefix/get_all_in_memory; "
                   "stable_ptr_valid_quiet: pointers stay valid in the whole-input modes and on an exhausted stream. "
+                  "Round 6: stable_ptr_valid (a refill under bf->stable never moves or frees a handed-out byte: same memgen, old window a prefix of the new one), stable_ptr_valid_history (along every history of the other 13 operations, any arguments, "
+                  "until the last anchor is raised), stable_anchor_establishes, stable_growth_bounded (allocation doubles: retired blocks sum to less than the live one); memIsRealL_spec/_sound (esl_mem_IsReal after fix C05-mem-isreal-garbage). "
                   "Round 4: history_total / history_total_no_fault for EVERY history on which the code defines the outcome (hypothesis CallerOk: no Set beyond the exposed bytes; anchors ahead of the cursor and rewinds before the anchor included; "
                   "the window invariant and the simulation relation no longer assume anchor <= cursor); history_memory_exact: in the whole-input modes every history equals the total specification memRun; "
                   "esl_buffer_Open/OpenFile/OpenPipe/Close: open_finds_iff (cwd first, then the first listed directory), openFile_mode_spec (mode = function of size and threshold), open_semantics_mode_independent, close_releases_exactly_once, asStr_nul_terminated. "
                   "The hand-written model is tied to the working tree by an exact differential run (6 modes x 11 page sizes, histories <= 200 ops, ASan+UBSan) and the implementation is "
                   "monitored against the specification per operation; any difference is a concrete failing (input, mode, page size, history).")
-    level_note = ("Partial on one clause: 'pointers handed out under a stable anchor stay valid' is false of the code (buffer_refill reallocates; known finding C05:stable-anchor:realloc-in-refill, "
-                  "proved: stable_ptr_valid_partial + stable_ptr_valid_fails_at + stable_ptr_valid_iff). Trusted: Lean kernel + propext/Classical.choice/Quot.sound; model fidelity is checked (not proved) by the differential run; "
+    level_note = ("The clause 'pointers handed out under a stable anchor stay valid until it is raised' is proved in full for the repaired buffer_refill (fix C05-stable-anchor-keep-oldmem: "
+                  "stable_ptr_valid for every refill, stable_ptr_valid_step / stable_ptr_valid_history for every operation and every history, no contract hypothesis; the model follows the working tree through the "
+                  "regenerated constant BufConsts.stableRetire, and on a tree WITHOUT the repair the same theorems are vacuous and stable_ptr_valid_partial + stable_ptr_valid_fails_at + stable_ptr_valid_iff say exactly when the code keeps the promise: "
+                  "known finding C05:stable-anchor:realloc-in-refill is reported only on such a tree). Tie of that clause: under a stable anchor the harness re-reads EVERY pointer handed out after EVERY operation (ASan: use-after-free; stale bytes). Trusted: Lean kernel + propext/Classical.choice/Quot.sound; model fidelity is checked (not proved) by the differential run; "
                   "fread/popen/mmap deliver the bytes; allocation never fails. history_spec/history_mode_independent (exact equality with the deterministic specification) are stated under the API contract "
                   "Valid (anchors at/before the cursor, SetOffset to a byte of the input ahead of the cursor or at/after the active anchor, Set within one guaranteed page) because outside it the outcome is window dependent by design "
                   "(a rewind succeeds iff the target is still loaded); history_total covers ALL histories on which the code defines the outcome (every argument of every call; anchors ahead of the cursor and rewinds before the anchor included), "
@@ -881,7 +885,10 @@ class C05(Prop):
                    "esl_buffer_Open/OpenFile/OpenPipe/Close decision logic is modelled over a parameter file system (finite map path -> bytes) and environment (OpenFile.lean) and tied with real temp files + setenv (op fsopen); "
                    "mmap/popen/gzip/fstat themselves are OS behaviour, modelled as 'delivers the bytes' (gunzip is a parameter); '-' (stdin) is modelled but not tied (stdin is the harness's protocol channel); "
                    "the st_blksize clamp is tied only at the sandbox's block size (4096), otherwise held by the regenerated constants (OpenConsts.lean); allocation/popen/fstat failures not modelled",
-                   "known genuine defects (see known_findings.d/C05.json): stable-anchor realloc (redesign-size fix proposed: C05-stable-anchor-keep-oldmem.patch), esl_buffer_Open .gz test indexes filename with strlen(path) (C05-open-gz-suffix.patch), Read of 0 bytes on an empty slurped file = memcpy(p, NULL, 0) (C05-read-zero-bytes-null-mem.patch)"]
+                   "repaired this round (fix: commits; the witnesses stay in the corpus as regression cases): Read of 0 bytes on an empty slurped file, esl_buffer_Open .gz suffix test, esl_mem_IsReal leading garbage, buffer_refill under a stable anchor; "
+                   "the model of the last two follows the working tree (regenerated MemConsts.isRealStart / BufConsts.stableRetire): on a tree without them the known findings C05:mem:isreal-accepts-garbage / C05:stable-anchor:realloc-in-refill are reported on their witnesses",
+                   "stable anchors (repaired code): the model keeps `bf->stable` (Buf.stab) and the growth policy max(n+pagesize, 2*balloc); the retired-block list itself (bf->retired, freed by the first refill after the anchor is gone and by Close) is not a model state: "
+                   "that it is freed exactly once is checked by LeakSanitizer/ASan on every case, not proved"]
     level_text = level_text + " " + MEM_LEVEL_TEXT; assumptions = assumptions + MEM_ASSUMPTIONS; trusted_base = trusted_base + MEM_TRUSTED   # round4-mem
     rule = ("case = one opening (mode, page size, input bytes) + a history of <= 200 operations; three families: (1) histories valid under the API contract, generated by simulating the abstract specification, "
             "the same (input, history) run under 3 configurations and monitored per operation against the python copy of the specification; (2) 'wild' histories with arbitrary arguments (rewinds with/without anchor, offsets at/after the end, "
